@@ -40,12 +40,12 @@ type Prog struct {
 	// source lives in gluon's own packages.
 	Funcs []*ssa.Function
 
-	cg      *callgraph.Graph
-	chaG    *callgraph.Graph
-	allFns  map[*ssa.Function]bool
-	fileOf  map[*token.File]*ast.File
-	astFunc map[*ssa.Function]ast.Node
-	byName  map[string]*ssa.Function
+	cg        *callgraph.Graph
+	chaG      *callgraph.Graph
+	allFns    map[*ssa.Function]bool
+	fileOf    map[*token.File]*ast.File
+	astFunc   map[*ssa.Function]ast.Node
+	byName    map[string]*ssa.Function
 	canonFull map[*ssa.Function]string
 }
 
